@@ -69,4 +69,9 @@ example : parseEther "12" = some 12 := by decide
 example : parseEther "1.5 parsec" = none := by decide
 example : parseEther "0.0005 gwei" = some 500000 := by decide
 
+/-- `runPool`'s reading of `--contract.min-balance`: `none` = the binary refuses to start; `some none` = no minimum;
+`some (some m)` = minimum `m` — also when `m` is zero or negative -/
+def minBalanceFlag (s : String) : Option (Option Int) :=
+  if s == "off" then some none else (parseEther s).map some
+
 end Vipnode.Ether
